@@ -38,7 +38,7 @@ fn scenarios(quick: bool) -> Vec<Scenario> {
     Scenario { name: "2 threads, same depth, C2V table (direct)", threads: vec![vec![(1, 0)], vec![(1, 0)]], two_depths: false, min_depth: 0, bound: unb },
     Scenario { name: "2 threads, same depth, C2V table through largest_center_to_vertex_distance", threads: vec![vec![(2, 0)], vec![(2, 0)]], two_depths: false, min_depth: 1, bound: unb },
     Scenario { name: "2 threads, same depth, two calls each (second use)", threads: vec![vec![(0, 0), (0, 0)], vec![(0, 0), (0, 0)]], two_depths: false, min_depth: 0, bound: if quick { 2 } else { unb } },
-    Scenario { name: "3 threads, same depth, Layer table", threads: vec![vec![(0, 0)], vec![(0, 0)], vec![(0, 0)]], two_depths: false, min_depth: 0, bound: if quick { 1 } else { 3 } },
+    Scenario { name: "3 threads, same depth, Layer table", threads: vec![vec![(0, 0)], vec![(0, 0)], vec![(0, 0)]], two_depths: false, min_depth: 0, bound: if quick { 1 } else { unb } },
   ];
   if !quick {
     v.push(Scenario { name: "3 threads: two on one depth, one on another", threads: vec![vec![(0, 0)], vec![(0, 0)], vec![(0, 1)]], two_depths: true, min_depth: 0, bound: 2 });
@@ -484,7 +484,7 @@ fn c20_model(ctx: &Ctx, total: &mut Part, oracle: &Oracle) -> Value {
       if ctx.quick() && nthreads == 3 && kind == 1 {
         continue;
       }
-      let spec = json!({"first": rec["first"], "second": rec["second"], "threads": nthreads, "calls": ncalls, "max_traces": if ncalls == 1 && nthreads == 2 { 100000 } else if ctx.quick() { 300 } else { 20000 }});
+      let spec = json!({"first": rec["first"], "second": rec["second"], "threads": nthreads, "calls": ncalls, "max_traces": if ncalls == 1 && nthreads == 2 { 100000 } else if ctx.quick() { 300 } else { 400000 }});
       let out = Command::new(&model_exe).arg(spec.to_string()).output().expect("c20model");
       let mut res: Option<Value> = None;
       for line in String::from_utf8_lossy(&out.stdout).lines() {
